@@ -136,6 +136,12 @@ std::string res_json(const Result& r)
     s << "\"ret\":" << r.ret << ",\"rc\":" << r.rc << ",\"rl\":" << json_rl(r.rl);
     return s.str();
 }
+// size()/empty()/capacity() do not purge on ut_map/ut_set: the projection after them is itself the
+// first purging call, so size() is re-read after the probes (like an "obs" line)
+bool is_observer(const std::string& op)
+{
+    return op == "size" || op == "empty" || op == "capacity";
+}
 void put(const std::string& s)
 {
     fwrite(s.data(), 1, s.size(), g_out);
@@ -344,7 +350,8 @@ int run_sched(std::istream& in)
                 {
                     std::ostringstream s;
                     s << "{\"e\":\"cs\",\"t\":" << tid << ",\"call\":" << w.next << ",\"n\":" << cs_now
-                      << ",\"now\":" << g_now_ms.load() << "," << M.observe(false, false) << "}";
+                      << ",\"now\":" << g_now_ms.load() << ","
+                      << M.observe(false, is_observer(w.calls[w.next].op)) << "}";
                     put(s.str());
                 }
                 if (st == WS::finished)
